@@ -42,14 +42,14 @@ pub fn tier(name: &str) -> Tier {
     } else {
         Tier {
             name: "quick",
-            sizes: PoolSizes { gen_per_ev: 330, cross_texts: 110, malformed_per_ev: 60, max_corpus: 300 },
+            sizes: PoolSizes { gen_per_ev: 600, cross_texts: 110, malformed_per_ev: 60, max_corpus: 300 },
             recheck_every: 7,
             det_seeds: 200,
             short_runs: 40_000,
             short_budget_s: 22,
             wide_runs: 1_500,
-            long_runs: 16,
-            long_calls: 1_000,
+            long_runs: 32,
+            long_calls: 8_000,
             min_budget_s: 40,
         }
     }
@@ -199,7 +199,10 @@ pub fn run_batch(
                 "lost_control" => {
                     bs.lost_control += 1;
                     consecutive_lost += 1;
-                    if consecutive_lost >= 20 && degrade.get() == 0 {
+                    // many runs stall on something the simulator cannot see (a lock held across tick sites):
+                    // stop pre-empting inside calls for the rest of this invocation, keep judging at call granularity
+                    let seen = bs.lost_control + bs.completed + bs.inconclusive;
+                    if degrade.get() == 0 && (consecutive_lost >= 20 || (bs.lost_control >= 32 && bs.lost_control * 50 >= seen)) {
                         degrade.set(1);
                         bs.degraded = true;
                     }
@@ -489,14 +492,20 @@ pub fn check(o: &CheckOpts) -> i32 {
 
     // ---- determinism self-check (reported, never a verdict)
     let det_n = ((t.det_seeds as f64) * o.scale).max(20.0) as usize;
-    let det_tmo = Duration::from_millis(3000);
+    let det_tmo = Duration::from_millis(800);
     let d16 = run_batch("det_w16", &pool, &ix, o.seed, 11, RunKind::Short, det_n, w, det_tmo, None, true, 0, 1000, false);
-    let d4 = run_batch("det_w4", &pool, &ix, o.seed, 11, RunKind::Short, det_n, 4.min(w), det_tmo, None, true, 0, 1000, false);
+    let mut degraded = d16.degraded;
+    let d4 = run_batch("det_w4", &pool, &ix, o.seed, 11, RunKind::Short, det_n, 4.min(w), det_tmo, None, true, 0, 1000, degraded);
+    degraded |= d4.degraded;
     let d1n = (det_n / 8).max(10);
-    let d1 = run_batch("det_w1", &pool, &ix, o.seed, 11, RunKind::Short, d1n, 1, det_tmo, None, true, 0, 1000, false);
+    let d1 = run_batch("det_w1", &pool, &ix, o.seed, 11, RunKind::Short, d1n, 1, det_tmo, None, true, 0, 1000, degraded);
+    degraded |= d1.degraded;
     let mut det_mismatch = 0usize;
     let mut det_compared = 0usize;
     for (i, h) in d16.hashes.iter() {
+        if degraded {
+            break; // the batches did not run the same policies; nothing comparable
+        }
         if let Some(h2) = d4.hashes.get(i) {
             det_compared += 1;
             if h != h2 {
@@ -519,10 +528,10 @@ pub fn check(o: &CheckOpts) -> i32 {
     let mut batches: Vec<BatchStats> = Vec::new();
     let short_n = ((t.short_runs as f64) * o.scale) as usize;
     let deadline = Instant::now() + Duration::from_secs(((t.short_budget_s as f64) * o.scale.max(0.2)) as u64 + 1);
-    let short = run_batch("short_swarm", &pool, &ix, o.seed, 1, RunKind::Short, short_n, w, Duration::from_millis(1500), Some(deadline), false, 4, 8, false);
-    let degraded = short.degraded;
+    let short = run_batch("short_swarm", &pool, &ix, o.seed, 1, RunKind::Short, short_n, w, Duration::from_millis(800), Some(deadline), false, 4, 8, degraded);
+    degraded |= short.degraded;
     let wide_n = ((t.wide_runs as f64) * o.scale) as usize;
-    let wide = run_batch("wide_16_threads", &pool, &ix, o.seed, 2, RunKind::Wide, wide_n, w, Duration::from_millis(3000), Some(Instant::now() + Duration::from_secs(if t.name == "thorough" { 120 } else { 10 })), false, 1, 8, degraded);
+    let wide = run_batch("wide_16_threads", &pool, &ix, o.seed, 2, RunKind::Wide, wide_n, w, Duration::from_millis(2000), Some(Instant::now() + Duration::from_secs(if t.name == "thorough" { 120 } else { 10 })), false, 1, 8, degraded);
     let long_calls = ((t.long_calls as f64) * o.scale.min(1.0)).max(200.0) as usize;
     let long = run_batch(
         "long_history",
@@ -563,6 +572,7 @@ pub fn check(o: &CheckOpts) -> i32 {
                 "violation in batch {} run {} (seed {}): {}/{} — minimising {} calls, {} threads, {} switches …",
                 b.name, i, seed_for(o.seed, stream, i), class.0, class.1, case.total_calls(), case.threads.len(), case.switches.len()
             );
+            let orig_policy = rr.rec.get("pn").cloned().unwrap_or(Value::Null);
             let budget = Duration::from_secs(t.min_budget_s);
             let (mc, mr, ms) = minimise(case, rr, &mut oc, w, budget, 6000);
             // confirm: 5 fresh replays
@@ -570,7 +580,7 @@ pub fn check(o: &CheckOpts) -> i32 {
             let rres = run_cases(&reps, &mut oc, w, case_timeout(&mc));
             let same = rres.iter().filter(|r| r.as_ref().map_or(false, |r| r.violation_class().as_ref() == Some(&class) && r.hash() == mr.hash())).count();
             let conf = format!("{}/5", same);
-            let origin = json!({"batch": b.name, "run_index": i, "run_seed": seed_for(o.seed, stream, i), "policy": mr.rec.get("pn").cloned().unwrap_or(Value::Null)});
+            let origin = json!({"batch": b.name, "run_index": i, "run_seed": seed_for(o.seed, stream, i), "policy": orig_policy});
             let path = write_replay_file(&o.verif, &format!("{}-{}-{}", o.seed, b.name, i), o.seed, t.name, &origin, &mc, &mr, &conf, Some(&ms));
             println!(
                 "  minimised to {} calls, {} threads, {} switches ({} candidates, {:.1}s); replay {} -> {}",
